@@ -904,6 +904,9 @@ def run_nat2wb(sc):
                     state["dead"] = True
                     return
             yield port.cmd.valid.eq(0)
+            # payload signals are don't-care while valid is low (a master that queues its next command would already show it)
+            yield port.cmd.addr.eq(rnd.getrandbits(24))
+            yield port.cmd.we.eq(rnd.getrandbits(1))
             n = 0
             if we:
                 while not ((yield port.wdata.ready)):
